@@ -430,6 +430,14 @@ func cmdCheck(args []string) int {
 			budgetS = b
 		}
 		opts.Deadline = t0.Add(time.Duration(budgetS) * time.Second)
+	} else {
+		// quick tier: a safety net far above the normal running time; a tree on which the
+		// exploration blows up ends with what was found so far and the rest reported as not explored
+		q := 900
+		if b, err := strconv.Atoi(os.Getenv("RUXSYM_QUICK_BUDGET_S")); err == nil && b > 0 {
+			q = b
+		}
+		opts.Deadline, opts.DeadlineAll = t0.Add(time.Duration(q)*time.Second), true
 	}
 	results := runJobs(w, jobs, opts)
 	nDeep, nDeepDone := 0, 0
@@ -467,7 +475,9 @@ func cmdCheck(args []string) int {
 		if !r.Complete {
 			incomplete++
 		}
-		if r.TimedOut {
+		if r.TimedOut && r.Job.Stage == 0 {
+			undis[fmt.Sprintf("out of bound: the quick tier's time limit was reached before %s was fully explored", r.Job.Harness)]++
+		} else if r.TimedOut {
 			undis[fmt.Sprintf("out of bound: time budget used up before the deeper bound %v of %s was fully explored (the quick-tier bound of the same harness was)", deepName(r.Job.Params), r.Job.Harness)]++
 		}
 		for _, s := range r.Samples {
